@@ -15,9 +15,9 @@ import (
 func c16kv(k string, v *string) [2]*string { return [2]*string{sp(k), v} }
 
 func c16Assign(k string, segs ...c16Seg) c16Line { return c16Line{K: sp(k), V: segs} }
-func c16Lit(s string) c16Seg                   { return c16Seg{Lit: sp(s)} }
-func c16Ref(s string) c16Seg                   { return c16Seg{Ref: sp(s)} }
-func c16Bare(k string) c16Line                 { return c16Line{Bare: sp(k)} }
+func c16Lit(s string) c16Seg                     { return c16Seg{Lit: sp(s)} }
+func c16Ref(s string) c16Seg                     { return c16Seg{Ref: sp(s)} }
+func c16Bare(k string) c16Line                   { return c16Line{Bare: sp(k)} }
 
 // all files of ≤ maxLines lines over the two keys A, B; literals are tagged with file and line
 func c16SmallFiles(tag string, maxLines int) [][]c16Line {
